@@ -3,8 +3,9 @@
 import json, os, subprocess, sys
 pid = sys.argv[1]
 hint = sys.argv[2] if len(sys.argv) > 2 else ""
+tag = sys.argv[3] if len(sys.argv) > 3 else ""   # e.g. "r2": a second round for the same property
 os.makedirs("/tmp/seed", exist_ok=True)
-wt = f"/tmp/seed/wt-{pid}"
+wt = f"/tmp/seed/wt-{pid}{tag}"
 if not os.path.exists(wt):
     subprocess.run(["git", "-C", "/repo", "worktree", "add", "-q", "--detach", wt, "HEAD"], check=True)
 for l in open("/verif/properties.jsonl"):
@@ -25,7 +26,7 @@ Task: produce TWO independent changes (mutations) to the library's non-test sour
  3. is *subtle*: it needs something specific to manifest - a particular interleaving of goroutines, a fault at a particular point, a multi-step sequence of operations, an unusual input, or two cooperating sites that each look fine alone - NOT something that ordinary use exposes at once. Make the two changes different in mechanism. {hint}
  4. looks like a plausible refactoring/optimisation/bug a real developer could introduce (no gratuitous sabotage such as `if x == 42`).
 
-For each change i in {{1,2}} create the directory /tmp/seed/out-{pid}/m<i>/ containing:
+For each change i in {{1,2}} create the directory /tmp/seed/out-{pid}{tag}/m<i>/ containing:
  - patch.diff : `git diff` of the change against the worktree HEAD (must apply with `git apply` on a clean checkout),
  - demo_test.go (or a small main program) : a demonstration that FAILS with the change applied and PASSES without it (if the manifestation needs a specific interleaving you may make it deterministic inside the demo with sleeps/channels/loops or by repeating until it shows, but it must fail reliably with the change and pass reliably without it); say in a comment at its top in which package directory it has to be placed and how to run it,
  - meta.json : {{"property": "{pid}", "breaks": "<which clause of the statement>", "needs": "<what specific interleaving/sequence/input is needed for it to manifest>", "demo_pkg": "<package directory of the demo relative to the repo root>", "ran": "<the commands you ran and their outcome, with and without the change>"}}.
